@@ -176,12 +176,12 @@ def validate_translation(ctx: Ctx, fn, args, outs, sp: Space, npoints=2, rtol=1e
         # noise around zero - balanced states - must not be compared relative to themselves)
         in_mag = max([float(np.abs(np.asarray(c, float)).max(initial=0.0)) for c in npin if isinstance(c, np.ndarray)] + [0.0])
         out_mag = max([float(np.abs(np.asarray(r_, float)).max(initial=0.0)) for r_ in ref if np.all(np.isfinite(np.asarray(r_, float)))] + [0.0])
-        scale_ = max(out_mag, 1e-6 * in_mag, 1e-300)
+        scale_ = max(out_mag, 1e-3 * in_mag, 1e-300)       # gross discrepancies only: jit fusion legitimately changes rounding (amplified by cancellation)
         for r_, e_ in zip(ref, eager):
           r_ = np.asarray(r_, float); e_ = np.asarray(e_, float)
           if r_.shape == e_.shape and np.all(np.isfinite(r_)):
             dmax = max(dmax, float(np.abs(r_ - e_).max(initial=0.0)) / scale_)
-        if mutated or dmax > 1e-9:
+        if mutated or dmax > 1e-6:
           ctx.violation(name + '.eager_numpy_call', dict(kind='eager_differs', mutated_inputs=bool(mutated)), dict(inputs=[np.asarray(c).tolist() for c in keep], max_rel_difference=dmax),
                         f'{name}: calling the real function eagerly on numpy arrays ' + ('overwrites its input arrays' if mutated else f'gives values that differ from the jitted call by {dmax:.3e} (relative)'))
           ctx.clause(name + '.eager_numpy_call', 'failed', queries=0)
